@@ -53,6 +53,8 @@ func runC16(c *Ctx) {
 	c.rule("overflow-after-convertible", "the flag source calls its reflect-Overflow helper only after value.Type().ConvertibleTo(T) succeeded for the very type T the target was allocated with (reflect Overflow* panics on receivers of other kind classes)", 1)
 	c.rule("shared-manglers-stateless", "no method of a mangler kept in a package-level variable (one instance for every concurrent decode of the process) writes a map or a location reachable from its receiver", 1)
 	c.rule("reverse-skips-untranslated", "(shared with C10) ReverseTranslate calls Unmangle only for state entries TranslateType actually mangled (a mangler handed a zero StructField and no values indexes an empty slice)", 1)
+	c.rule("assert-matches-arm", "(shared with C12) in the type arms of both flag sources' registration switches every unchecked type assertion of the field names the arm's own type (anything else panics at registration)", 11)
+	c.rule("elem-of-nonnil", "in the transform package Elem() of a pointer-kind reflect.Value parameter is used only after a nil test covering pointer kinds returned false (the zero Value Elem() gives for a nil pointer panics on the next call)", 1)
 	c.rule("addr-guard", "every reflect.Value.Addr in the decoders, manglers, parsers and wrappers has a receiver that is addressable by construction (reflect.New(T).Elem(), a field or element of such, the successful result of a repository function that only returns such values) or under a CanAddr test", 6)
 	c.rule("anon-struct-only", "the anonymous-flatten mangler strips the pointer of an embedded field (Mangle) and rebuilds it through the NumField-calling helper (Unmangle) only under a test that the pointee is a struct; both directions agree", 3)
 	c.rule("wrong-error-returned", "(contradiction rule, whole repository) no return inside the failure branch of one error hands back a different error value that is known nil on that path (a wrong-variable slip that turns a detected failure into (nil, nil), which the caller then indexes or dereferences)", 1)
@@ -142,6 +144,12 @@ func runC16(c *Ctx) {
 	c16OverflowAfterConvertible(c)
 	c16SharedManglersStateless(c, "shared-manglers-stateless")
 	c10ReverseSkipsUntranslated(c, "reverse-skips-untranslated")
+	c16ElemOfNonNil(c, "elem-of-nonnil")
+	for _, pk := range [][2]string{{"sources/flag", "flag"}, {"sources/pflag", "pflag"}} {
+		if reg := c.W.fn(pk[0], "Set.registerFlags"); reg != nil {
+			c12TypeArmTable(c, reg, pk[1], "assert-matches-arm")
+		}
+	}
 	c16ValidOnSuccess(c)
 	c16Loops(c)
 }
